@@ -21,7 +21,8 @@
 (*              answer; returned objects are identified by identity (ordinal, 0 = some   *)
 (*              other object)                                                           *)
 (*                                                                                      *)
-(*   property:<clause>@<what>   a sentence of the extension is false on the observation *)
+(*   property:<clause>@<what>[#<query>]  a sentence of the extension is false on the    *)
+(*                              observation (<query> names the answer, for the report)  *)
 (*   drift:<clause>             the code did something the spec action does not predict *)
 (* Sentences about the observed model alone (zones, full codes, regions, duplicates) are *)
 (* judged on the observation; the answers are judged against Answer(predicted state)    *)
@@ -111,19 +112,21 @@ JudgeAnswer(a) ==
     LET q == QOf(a)
         got == GotOf(a)
         exp == Answer(St', q)
+        at == "#" \o q.cc \o "/" \o q.code \o "/" \o ToString(q.n) \o "/" \o ToString(q.m)     \* which query (report only)
     IN IF got = exp THEN Ok
        ELSE IF OrderOnly(exp, got) THEN Drift("zone_sector_order")
        ELSE IF exp.r = "nozone" \/ got.r = "nozone" THEN Drift("zones")
-       ELSE IF q.k \in LookupKinds THEN Prop("Lookup_FindsExactlyTheDeclared@" \o q.k \o ":" \o What(exp, got))
-       ELSE IF q.k \in BoolKinds THEN Prop("Lookup_FindsExactlyTheDeclared@" \o q.k \o ":wrong-answer")
-       ELSE IF q.k = "Shared" THEN Prop("Zone_SharedIffSameCurrency@Shared")
-       ELSE Prop("Zone_PartitionByCurrency@ZoneSectors")
+       ELSE IF q.k \in LookupKinds THEN Prop("Lookup_FindsExactlyTheDeclared@" \o q.k \o ":" \o What(exp, got) \o at)
+       ELSE IF q.k \in BoolKinds THEN Prop("Lookup_FindsExactlyTheDeclared@" \o q.k \o ":wrong-answer" \o at)
+       ELSE IF q.k = "Shared" THEN Prop("Zone_SharedIffSameCurrency@Shared" \o at)
+       ELSE Prop("Zone_PartitionByCurrency@ZoneSectors" \o at)
 
 JudgeBattery(e) ==
-    LET bad == { i \in DOMAIN e.answers : JudgeAnswer(e.answers[i]).kind = "property" }
-        soft == { i \in DOMAIN e.answers : JudgeAnswer(e.answers[i]).kind = "drift" }
-    IN IF bad # {} THEN JudgeAnswer(e.answers[First(bad)])
-       ELSE IF soft # {} THEN JudgeAnswer(e.answers[First(soft)])
+    LET js == [i \in DOMAIN e.answers |-> JudgeAnswer(e.answers[i])]
+        bad == { i \in DOMAIN js : js[i].kind = "property" }
+        soft == { i \in DOMAIN js : js[i].kind = "drift" }
+    IN IF bad # {} THEN js[First(bad)]
+       ELSE IF soft # {} THEN js[First(soft)]
        ELSE Ok
 
 ----------------------------------------------------------------------------
